@@ -199,7 +199,24 @@ public:
     } else if (is_top() || other.is_bottom()) {
       return false;
     } else {
-      return m_packs <= other.m_packs;
+      // Every pack of other must be implied by the packs of *this
+      // over the same variables. Comparing the partitions
+      // (m_packs <= other.m_packs) answers false whenever a pack of
+      // *this is larger than the pack of other, also if the values
+      // are included: x <= (y || x) could stay false forever and the
+      // fixpoint iteration would not terminate.
+      pack_vars_t other_packs = other.m_packs.equiv_classes_elems();
+      for (auto &kv : other_packs) {
+        std::shared_ptr<const base_domain_t> other_absval =
+            other.m_packs.get_equiv_class(kv.first).get_absval();
+        if (other_absval->is_top()) {
+          continue;
+        }
+        if (!(merge(kv.second) <= *other_absval)) {
+          return false;
+        }
+      }
+      return true;
     }
   }
 
